@@ -228,6 +228,7 @@ def run(ctx, rep):
     stripe_selection_rule(P, rep, 'R-C05-9')
     buffer_slot_rule(P, rep, 'R-C05-10')
     deleted_forgotten_rule(P, rep, 'R-C05-12')
+    C04.hash_length_rule(P, rep, 'R-C05-2l')
     from .carried import nullable_array_rule
     nullable_array_rule(P, rep, 'R-C05-13')
     from .C18 import nofollow_probe_rule
